@@ -1,7 +1,7 @@
 (* Prototype: the C01/C02/C03/C11 oracle: source semantics of the model-parsed scripts vs. the target
    semantics of the instructions read back from the implementation's output text. *)
 From Coq Require Import List String Ascii ZArith NArith Bool.
-From Pory Require Import Lexer Ast Parser Emitter Format Compile Sem2 SemTgt Tr Check EmitProps RenderSim RenderCheck.
+From Pory Require Import Lexer Ast Parser Emitter Format Compile Sem2 SemTgt Tr Check EmitProps RenderSim RenderCheck LabelSim C01Final.
 Import ListNotations.
 
 Section O.
@@ -54,7 +54,7 @@ Definition validate_script (mp : option text) (tl : list text) (name : text) (gl
       let G := finals w in
       let order := order_of optimize G in
       match render_chunks mp tl name glob G order with
-      | Emitter.Ok code => chk_block G (brk w) (org w) 400 body 0 (-1) && wf_render mp name G order code
+      | Emitter.Ok code => chk_block G (brk w) (org w) 400 body 0 (-1) && wf_render mp name G order code && labels_okb body G
       | _ => true      (* label clash: an error is returned, nothing is emitted *)
       end
   | _ => false
